@@ -19,7 +19,6 @@ import (
 	"testing"
 	"time"
 
-	"github.com/phayes/freeport"
 	clientv3 "go.etcd.io/etcd/client/v3"
 
 	"github.com/megaease/easegress/pkg/env"
@@ -120,6 +119,52 @@ func (r *vfRelay) Close() {
 	r.Cut()
 }
 
+// vfPorts picks n TCP ports on 127.0.0.1 below the ephemeral range (so that neither the OS-assigned
+// ports of concurrently running tests nor an outgoing connection of this process can take a port
+// while the etcd server is down between stop and start), spread by pid so that shards differ.
+var vfPortCursor int
+
+func vfPorts(n int) ([]int, error) {
+	const lo, span = 10000, 22000
+	var out []int
+	for tries := 0; len(out) < n && tries < 4000; tries++ {
+		vfPortCursor++
+		p := lo + (os.Getpid()*131+vfPortCursor*37)%span
+		ln, err := net.Listen("tcp", fmt.Sprintf("127.0.0.1:%d", p))
+		if err != nil {
+			continue
+		}
+		ln.Close()
+		out = append(out, p)
+	}
+	if len(out) < n {
+		return nil, fmt.Errorf("no free ports found")
+	}
+	return out, nil
+}
+
+// vfNewCluster runs New with a watchdog: New retries forever when the server cannot start.
+func vfNewCluster(opt *option.Options, wait time.Duration) (*cluster, error) {
+	type res struct {
+		c   Cluster
+		err error
+	}
+	ch := make(chan res, 1)
+	go func() {
+		c, err := New(opt)
+		ch <- res{c, err}
+	}()
+	select {
+	case r := <-ch:
+		if r.err != nil {
+			return nil, r.err
+		}
+		return r.c.(*cluster), nil
+	case <-time.After(wait):
+		return nil, fmt.Errorf("cluster.New did not return within %v (it retries forever when the server cannot start)", wait)
+	}
+}
+
 // vfBed is the test bed.
 type vfBed struct {
 	dir       string
@@ -146,7 +191,7 @@ func vfParse(opt *option.Options) error {
 // going through the relay.
 func vfStartBed(t *testing.T, viaRelay bool) *vfBed {
 	dir := t.TempDir()
-	ports, err := freeport.GetFreePorts(3)
+	ports, err := vfPorts(3)
 	if err != nil {
 		t.Fatalf("VF-INCONCLUSIVE no free ports: %v", err)
 	}
@@ -182,11 +227,11 @@ func vfStartBed(t *testing.T, viaRelay bool) *vfBed {
 		t.Fatalf("VF-INCONCLUSIVE options: %v", err)
 	}
 	env.InitServerDir(opt)
-	c, err := New(opt)
+	c, err := vfNewCluster(opt, 3*time.Minute)
 	if err != nil {
 		t.Fatalf("VF-INCONCLUSIVE cluster.New: %v", err)
 	}
-	b.primary = c.(*cluster)
+	b.primary = c
 	b.popt = opt
 	b.raw, err = clientv3.New(clientv3.Config{Endpoints: []string{b.clientURL}, DialTimeout: 10 * time.Second})
 	if err != nil {
@@ -211,7 +256,7 @@ func vfStartBed(t *testing.T, viaRelay bool) *vfBed {
 // vfAddSecondary creates a client-only member. Its endpoint is the relay when viaRelay is set,
 // else the server's peer URL.
 func (b *vfBed) vfAddSecondary(t *testing.T, name string, viaRelay bool) *cluster {
-	ports, err := freeport.GetFreePorts(1)
+	ports, err := vfPorts(1)
 	if err != nil {
 		t.Fatalf("VF-INCONCLUSIVE no free ports: %v", err)
 	}
@@ -234,11 +279,10 @@ func (b *vfBed) vfAddSecondary(t *testing.T, name string, viaRelay bool) *cluste
 		t.Fatalf("VF-INCONCLUSIVE options: %v", err)
 	}
 	env.InitServerDir(opt)
-	c, err := New(opt)
+	m, err := vfNewCluster(opt, 3*time.Minute)
 	if err != nil {
 		t.Fatalf("VF-INCONCLUSIVE cluster.New(secondary): %v", err)
 	}
-	m := c.(*cluster)
 	b.members = append(b.members, m)
 	return m
 }
@@ -254,6 +298,11 @@ func (b *vfBed) vfStopServer() {
 
 func (b *vfBed) vfStartServer(wait time.Duration) error {
 	done, timeout, err := b.primary.StartServer()
+	for t0 := time.Now(); err != nil && time.Since(t0) < wait/2; {
+		// e.g. the listen port is momentarily taken: try again
+		time.Sleep(250 * time.Millisecond)
+		done, timeout, err = b.primary.StartServer()
+	}
 	if err != nil {
 		return err
 	}
